@@ -20,7 +20,7 @@ import (
 )
 
 func init() {
-	simrt.RegisterMode("C29", 2, &simrt.Prop{ID: "C29", Gen: genC29Node, Exec: execC29Node})
+	simrt.RegisterMode("C29", 2, &simrt.Prop{ID: "C29", Gen: genC29Node, Exec: execC29Node, RaceClass: "map-race"})
 }
 
 type c29Write struct {
